@@ -10,14 +10,14 @@ TEXT = {
     'C16': ('Coq theorems (for ALL byte strings, no length bound): parse_method/parse_version bs = Some x <-> bs = raw x; '
             'parse_media exact modulo Unicode white space; round trips; raw_status injective and three digits; '
             'abs_path characterised on an exhaustive four-way classification of URIs and always empty or a /-prefixed '
-            'suffix. The tables in the theorems are proved equal (reflexivity, every run) to the tables regenerated '
+            'suffix, and idempotent. The tables in the theorems are proved equal (reflexivity, every run) to the tables regenerated '
             'from /repo/src, and the model functions are run against the implementation on the exhaustive/edit/URI '
             'domains the property names.', 'DESIGN.md section 5 C16',
             'Coq proof (iff characterisations) + regenerated literal tables + differential run'),
     'C17': ('Coq theorems for EVERY registration sequence and request: route_key is injective; lookup on the table built '
             'by any sequence of add_route calls (duplicates included) equals the first registration for (method, prefix+path); '
             'handle_http_request runs exactly that handler once (or answers 404 over HTTP/1.1) and stamps server id and JSON '
-            'content type; a duplicate registration is refused and leaves the table unchanged. Key format, 404 and media '
+            'content type; a duplicate registration is refused and leaves the table unchanged; a registration for another (method, prefix+path), anywhere in the order, never changes which handler answers. Key format, 404 and media '
             'type are tied to the source literals; recording handlers on the real router are compared with the model and '
             'with an independent dictionary oracle.', 'DESIGN.md section 5 C17',
             'Coq proof (refinement of the HashMap to first-match over the registration list) + differential run'),
@@ -173,7 +173,7 @@ TEXT = {
             'any order, from any world satisfying the invariant, the poll reports Shutdown (bar the u32 overflow); unsignalled, '
             'its event never occurs and no event changes the flag. Relies on K4 (batch holds all ready descriptors: events array '
             'size MAX_CONNECTIONS + 2, literal-tied) and K6. Real-socket histories with the switch signalled at random points, '
-            'each compared with a twin run without a switch.', 'DESIGN.md section 5 C18',
+            'each compared with a twin run without a switch; kill after an answer the server refused with Underflow (oracle only).', 'DESIGN.md section 5 C18',
             'Coq proof (any-order batch theorem) + real-socket correspondence with twin runs'),
 }
 
